@@ -40,12 +40,12 @@ checks["C12"] = dict(category="proof", design="§4 C12",
     technique="Lean 4 proof (induction over the run, comparison of fetch policies) on a hand model built from regenerated parts; exact cycle correspondence with the Go machines; differential + twin inputs for the other variants")
 
 checks["C08"] = dict(category="proof", design="§4 C08",
-    text="What Lean carries: the order-independence theorems for every map-range loop of risc/app.go (Props.C15.*_order_irrelevant: Commit, Rollback, InitRAT, RATCommit, RATRollback, RATFlush give equivalent contexts for ANY permutation of the entries) and a reviewed inventory of goroutines and package-level variables that must not change unnoticed. What a Lean model cannot exhibit (goroutine interleavings, another process, reuse of a parsed program) is checked dynamically and labelled partial: every input runs 3x in one process (the third run on a parsed program already used by another machine) and again in a second process; status, cycles, registers and memory must be bit-identical. Recorded finding KF-ooo-rename: the renaming variants choose among in-flight writers in Go map order, so repeated runs can differ.",
+    text="What Lean carries: the order-independence theorems for every map-range loop of risc/app.go (Props.C15.*_order_irrelevant: Commit, Rollback, InitRAT, RATCommit, RATRollback, RATFlush give equivalent contexts for ANY permutation of the entries) and a reviewed inventory of goroutines and package-level variables that must not change unnoticed. What a Lean model cannot exhibit (goroutine interleavings, another process, reuse of a parsed program) is checked dynamically and labelled partial: every input runs 3x in one process (the third run on a parsed program already used by another machine), on three more machines CONCURRENTLY (goroutines) beside a machine of another variant, the used program object and a fresh parse on OTHER data, and again in a second process; status, cycles, registers and memory must be bit-identical. Recorded finding KF-ooo-rename: the renaming variants choose among in-flight writers in Go map order, so repeated runs can differ.",
     note="Partial by nature: map iteration order and goroutine scheduling are sampled, not enumerated; the MSI and control-unit map loops are not modelled (their order-dependence is what KF-ooo-rename records). Not-well-formed programs (a Go panic can leave a map-order-dependent partial state) are excluded.",
     technique="Lean 4 proof of permutation-invariance lemmas + source inventory tripwire; repeated and cross-process execution as dynamic complement")
 
 CPU_NOTE = ("Oracle: Spec.run (lean/MajoranaVerif/Spec/Run.lean, trusted, compiled). Every generated program runs on the real code of each selected variant x parallelism 1..4 in worker processes under the verif tick budget and a wall-clock watchdog; registers, memory hash and status are compared with the reference; a divergence outside every KNOWN_FINDINGS trigger is a VIOLATION with the shrunk program as replay. "
-            "What is PROVED in Lean beneath this property: the instruction layer (C02: every Go instruction body equals Spec.exec) and the sequential machines MVP-1/MVP-2 (Model.Seq, tied to Go by exact agreement of status, cycles and final state, and compared with Spec.run on every case). MVP-3..8 have NO Lean machine model: for them this check is a differential exploration, not a proof; the superscalar variants carry the recorded findings KF-ooo-load / KF-ooo-spec-error / KF-ooo-rename (DESIGN §8), which excuse only runs inside their trigger predicates.")
+            "What is PROVED in Lean beneath this property: the instruction layer (C02: every Go instruction body equals Spec.exec) and the sequential machines MVP-1/MVP-2 (Model.Seq, tied to Go by exact agreement of status, cycles and final state, and compared with Spec.run on every case). MVP-3..8 have NO Lean machine model: for them this check is a differential exploration, not a proof; the superscalar variants carry the recorded findings KF-ooo-mem / KF-ooo-shadow / KF-ooo-2branch / KF-ooo-spec-error / KF-ooo-rename (DESIGN §8; KNOWN_FINDINGS.json), which excuse only runs inside their trigger predicates.")
 CPU_LEVEL = " LEVEL: differential exploration against a Lean specification, not a machine-level proof (see level_note)."
 cpu_props = {
     "C01": ("Every variant computes the sequential architectural result: all generator families, all 12 variants x parallelism 1..4, final registers and memory against Spec.run.", "§4 C01"),
@@ -53,8 +53,8 @@ cpu_props = {
     "C04": ("Register dependences (RAW/WAW/WAR): programs over 2-4 registers with chains, fans, WAW and WAR pairs and mixed-latency producers; MVP-4..8.", "§4 C04"),
     "C05": ("Cache transparency and write-back: load/store programs over 2-16 KB memories (larger than every cache), strides, re-reads after eviction, every first-touch offset; MVP-3..8; loaded values and final memory against flat memory semantics.", "§4 C05"),
     "C07": ("Termination: every run returns without panic, within the tick budget 8 x MemoryAccess x (instructions+64) and with a cycle count within that bound; a defined error (division by zero, undefined label) is reported as an error value exactly when the sequential run reaches it.", "§4 C07"),
-    "C09": ("Returning completes everything older: the last instructions before ret / the end are cache-missing loads, stores to uncached lines, dependent chains; MVP-4..8.", "§4 C09"),
-    "C10": ("Memory dependences between in-flight loads and stores: store->load, load->store, store->store pairs at distance 1..8 to the same byte/word/line through independent address registers; MVP-4..8.", "§4 C10"),
+    "C09": ("Returning completes everything older: the last instructions before ret / the end are cache-missing loads, stores to uncached lines, dependent chains, line-disjoint load/store streams with capacity evictions; MVP-4..8. Additionally, at the memory-hierarchy level of MVP-7.0/7.1/8 (request schedules issued directly to the real cache controllers of the verif rig, incl. L1 and L3 capacity evictions, run to quiescence, then the end-of-run write-back): every byte written by exactly one core holds its last stored value in memory.", "§4 C09"),
+    "C10": ("Memory dependences between in-flight loads and stores: store->load, load->store, store->store pairs at distance 1..8 to the same byte/word/line through independent address registers; MVP-4..8. Additionally, on the cache-controller rig of MVP-7.0/7.1/8: a read returns the reading core's latest completed write for every byte only it writes.", "§4 C10"),
 }
 PROVED_PART = {
     "C01": " PROVED (Props/C01.lean): for MVP-1 and MVP-2 — for every parsed program, every initial state and every fuel, whenever the sequential run ends by ret, by running past the end or with a defined error, the cycle-accurate Lean model of the machine (tied to the Go machine by exact agreement of status, cycles and final state on every generated case) ends the same way after the same number of instructions with the specification's final registers and memory. PARTIAL: MVP-3..8 have no Lean machine model; for them this is differential exploration only.",
